@@ -745,3 +745,37 @@ func init() {
 		sc.Empty(5 * time.Second)
 	}
 }
+
+func init() {
+	// C05: an all-asset join whose coin list names ONE denom twice (each coin is valid on its own; the list is not a valid coin set, and
+	// MsgJoinPool.ValidateBasic looks at the coins one by one): on an oracle pool the ratio join treats the two coins as the pool's two assets.
+	scenarios["c05-join-same-denom-twice"] = func(sc *Scn) {
+		w := sc.w
+		u := w.Accts[3]
+		var p PoolRef
+		for _, q := range sc.std.Pools {
+			if q.Oracle {
+				p = q
+				break
+			}
+		}
+		// the ATOM price falls to a third: the pool's uatom side is now the smaller part of its value
+		sc.Price("ATOM", sc.std.Prices["ATOM"].QuoInt64(3))
+		var r math.Int
+		w.Seed(func(ctx sdk.Context) {
+			pool, _ := w.App.AmmKeeper.GetPool(ctx, p.Id)
+			for _, a := range pool.PoolAssets {
+				if a.Token.Denom == "uatom" {
+					r = a.Token.Amount
+				}
+			}
+		})
+		small := r.QuoRaw(1000)
+		maxIn := sdk.Coins{sdk.NewCoin("uatom", small), sdk.NewCoin("uatom", small.MulRaw(2))}
+		sc.Empty(5 * time.Second)
+		code := sc.Tx("amm.join", u, J{"pool": p.Id, "maxIn": coinsArr(maxIn), "shareOut": "0", "single": false, "sameDenomTwice": true},
+			&ammtypes.MsgJoinPool{Sender: u.Addr.String(), PoolId: p.Id, MaxAmountsIn: maxIn, ShareAmountOut: math.ZeroInt()})
+		sc.stats[fmt.Sprintf("c05/joinSameDenomTwice/code=%d", code)]++
+		sc.Empty(5 * time.Second)
+	}
+}
